@@ -41,7 +41,27 @@ func OvPool() []ref.FunSig {
 		mk(19, m.Str, m.List(m.Num), m.List(m.Num)),
 		mk(20, m.Str, m.Obj(m.Field{Name: "w", T: m.Num}, m.Field{Name: "h", T: m.Num}), m.Obj(m.Field{Name: "w", T: m.Num}, m.Field{Name: "h", T: m.Num})),
 		mk(21, m.Str, m.Map(m.Str, m.List(m.Num)), m.Map(m.Str, m.List(m.Num)), m.Num),
+		// type variables that occur ONLY as map keys (still polymorphic), also deeper and next to a mono twin
+		mk(22, m.Str, m.Map(m.Var("k"), m.Num)),
+		mk(23, m.Str, m.List(m.Map(m.Var("k"), m.Str))),
+		mk(24, m.Str, m.Map(m.Str, m.Num)),
+		mk(25, m.Str, m.Obj(m.Field{Name: "f", T: m.Map(m.Var("k"), m.Bool)}), m.Num),
+		// results that the parameters do not determine (never resolvable): variable as key / value / element of the result
+		mk(26, m.Map(m.Var("k"), a), m.List(a)),
+		mk(27, m.Map(m.Var("k"), m.Num), m.Num),
+		mk(28, m.List(b), m.Str, a),
 	}
+}
+
+// randomOv: an overload of "ov" with drawn parameter patterns (variables a, b, k at any
+// position, k also as map key) and the marker result.
+func randomOv(t *rapid.T, i int) ref.FunSig {
+	n := rapid.IntRange(1, 2).Draw(t, "nparams")
+	ps := make([]*m.Type, n)
+	for j := range ps {
+		ps[j] = Type(t, TypeOpt{Depth: rapid.IntRange(0, 2).Draw(t, "pdepth"), Vars: 3, Maybe: true, MaxFields: 2}).FixKeys()
+	}
+	return ref.FunSig{Name: "ov", Params: ps, Ret: m.Str, Impl: "ov#R" + string(rune('0'+i))}
 }
 
 // DrawOvs registers 0–5 overloads of "ov" in a drawn order.
@@ -53,6 +73,14 @@ func DrawOvs(t *rapid.T) []ref.FunSig {
 		j := rapid.IntRange(0, len(pool)-1).Draw(t, "ov")
 		out = append(out, pool[j])
 		pool = append(pool[:j], pool[j+1:]...)
+	}
+	if n > 0 && rapid.IntRange(0, 2).Draw(t, "randomovs") == 0 {
+		k := rapid.IntRange(1, 2).Draw(t, "nrandom")
+		for i := 0; i < k; i++ {
+			f := randomOv(t, i)
+			at := rapid.IntRange(0, len(out)).Draw(t, "at")
+			out = append(out[:at], append([]ref.FunSig{f}, out[at:]...)...)
+		}
 	}
 	return out
 }
